@@ -1,5 +1,64 @@
+import NessaiVerif.Model.Interrupt
+import NessaiVerif.Gen.Interrupt
 import NessaiVerif.Driver.Parse
-/- stub: replaced by the owner of this area -/
+/-
+`int run <n> [key:id,…] op;op;…` — start from a populated live set (iteration 0) and apply ops:
+  `c key:id`            one complete iteration with that accepted candidate
+  `p j key:id`          the state pickled by an interruption after `j` mutating statements (then the run ends there)
+  `r key:id`            a complete iteration after resuming (same as `c`; kept separate for readability)
+  `f`                   finalise
+  `order`               prints the statement order extracted from the source
+State: `live=[key:id,…] nested=[id,…] evid=[key,…] idx=[…] iter=k ok=0|1` (ok = the consistency predicate).
+-/
 namespace NessaiVerif.Driver.Interrupt
-def handle (_toks : List String) : String := "bad-op"
+open NessaiVerif NessaiVerif.Parse NessaiVerif.Interrupt
+
+def parsePt? (s : String) : Option Pt :=
+  match s.splitOn ":" with
+  | [k, i] => do some { key := (← parseInt? k), id := (← parseNat? i) }
+  | _ => none
+
+def showTag : Tag → String
+  | .setMin => "setMin" | .increment => "increment" | .appendNested => "appendNested" | .iter => "iter"
+  | .shift => "shift" | .place => "place" | .idx => "idx"
+
+def showState (n : Nat) (s : NS) : String :=
+  s!"live={showList (fun p : Pt => s!"{p.key}:{p.id}") s.live} nested={showList (fun p : Pt => toString p.id) s.nested} " ++
+  s!"evid={showList toString s.evid} idx={showList toString s.idx} iter={s.iter} ok={showBool (consistent n s)}"
+
+def stepOp (n : Nat) (s : NS) (op : String) : Option (NS × String) :=
+  match (op.splitOn " ").filter (· ≠ "") with
+  | ["c", p] => do
+      let p ← parsePt? p
+      let s' := consume Gen.Interrupt.consumeOrder s p
+      some (s', showState n s')
+  | ["r", p] => do
+      let p ← parsePt? p
+      let s' := consume Gen.Interrupt.consumeOrder s p
+      some (s', showState n s')
+  | ["p", j, p] => do
+      let j ← parseNat? j
+      let p ← parsePt? p
+      let s' := runTags s p (Gen.Interrupt.consumeOrder.take j)
+      some (s', showState n s')
+  | ["f"] => let s' := finalise s; some (s', showState n s')
+  | ["order"] => some (s, showList showTag Gen.Interrupt.consumeOrder ++ s!" insGuardFirst={showBool Gen.Interrupt.insGuardFirst}")
+  | _ => none
+
+def runOps (n : Nat) (s : NS) : List String → List String
+  | [] => []
+  | op :: ops =>
+    match stepOp n s op with
+    | some (s', out) => out :: runOps n s' ops
+    | none => ["bad-op"]
+
+def handle (toks : List String) : String :=
+  match toks with
+  | "run" :: n :: live :: rest =>
+    match parseNat? n, parseList? parsePt? live with
+    | some n, some live =>
+      "|".intercalate (runOps n { live := live } ((" ".intercalate rest).splitOn ";"))
+    | _, _ => "bad-op"
+  | _ => "bad-op"
+
 end NessaiVerif.Driver.Interrupt
